@@ -31,6 +31,13 @@ func checkC03(p *load.Program, r *kit.Report) {
 	r.Rule("GUARD-DOM", "under disableSplitProtection=false every effect of ProcessHeader is behind the refusal loop over repo.splits (split.Height == previousHeight+1 && split.AfterHash.Equal(&hash) → ErrWrongChain) and, when previousHeight+1 == requiredSplit.Height, behind requiredSplit.AfterHash.Equal(&hash); VerifyHeader returns nil only behind requiredSplit.AfterHash.Equal(hash); accept() only behind VerifyHeader()==nil and HandshakeIsComplete()", 8)
 	r.Rule("MUST-PASS", "in handleHeadersVerify, after the handshake guard every return of nil is preceded by accept() or n.Stop(); the unknown-parent arm of ProcessHeader returns only errors", 2)
 	r.Rule("CONST-TABLE", "split table equals the frozen consensus table (names, before/after hashes, heights); every hash literal has 64 hex digits; no foreign after-hash equals the required one", 3)
+	r.Rule("NO-REACQUIRE", "the verification path (handleHeadersVerify, VerifyHeader, accept, Stop and what they call) never calls, while holding a mutex, a callee that takes the same mutex: a refused or empty reply must reach Stop() and close the connection, not block for ever", 3)
+	{
+		reach := staticReach(p.Func(R, "BitcoinNode.handleHeadersVerify"), p.Func(H, "Repository.VerifyHeader"), p.Func(R, "BitcoinNode.accept"), p.Func(R, "BitcoinNode.Stop"))
+		checkNoReacquire(p, r, "NO-REACQUIRE", func(f *ssa.Function) bool { return reach[f] })
+	}
+	r.Rule("SPLITS-FROZEN", "outside NewRepository no function sorts in place or stores into a slice that may share the backing array of repo.splits (the field's value, a re-slice of it, or append(repo.splits, …))", 3)
+	checkSplitsFrozen(p, r, "SPLITS-FROZEN")
 	r.Assume("Repository.disableSplitProtection is false in production (discharged by WRITERS)")
 
 	checkTestSwitches(p, r, "WRITERS", "disableSplitProtection", "disableDifficulty")
@@ -467,5 +474,100 @@ func checkReadyWriters(p *load.Program, r *kit.Report, rule string) {
 		if n == 0 {
 			r.Bad(rule, "BitcoinNode."+name+"/store-true", "-", "no store of true to %s found", name)
 		}
+	}
+}
+
+// checkSplitsFrozen: after construction nothing reorders or overwrites the elements of the slice
+// repo.splits points to — neither directly nor through a slice that may share its backing array
+// (a re-slice, or append(repo.splits, …), which writes into spare capacity and is then sorted in
+// place). ProcessHeader/VerifyHeader and the locators read the table on every call.
+func checkSplitsFrozen(p *load.Program, r *kit.Report, rule string) {
+	fld := p.Field(H, "Repository", "splits")
+	if fld == nil {
+		r.Unknown(rule, "Repository.splits", "-", "field not found")
+		return
+	}
+	ctor := p.Func(H, "NewRepository")
+	k := newKeyer()
+	readers := 0
+	for _, f := range pkgFuncs(p, H) {
+		if f == ctor || strings.HasPrefix(p.FileOf(f.Pos()), "headers/test_helpers.go") {
+			continue
+		}
+		// values that may share the backing array of repo.splits
+		derived := map[ssa.Value]bool{}
+		kit.AllInstrs(f, func(in ssa.Instruction) {
+			if u, ok := in.(*ssa.UnOp); ok && u.Op == token.MUL {
+				if fa, ok := u.X.(*ssa.FieldAddr); ok {
+					if fl, _ := kit.FieldOfAddr(fa); fl == fld {
+						derived[u] = true
+					}
+				}
+			}
+		})
+		if len(derived) == 0 {
+			continue
+		}
+		readers++
+		for changed := true; changed; {
+			changed = false
+			kit.AllInstrs(f, func(in ssa.Instruction) {
+				v, ok := in.(ssa.Value)
+				if !ok || derived[v] {
+					return
+				}
+				switch x := in.(type) {
+				case *ssa.Slice:
+					if derived[x.X] {
+						derived[v], changed = true, true
+					}
+				case *ssa.ChangeType:
+					if derived[x.X] {
+						derived[v], changed = true, true
+					}
+				case *ssa.MakeInterface:
+					if derived[x.X] {
+						derived[v], changed = true, true
+					}
+				case *ssa.Phi:
+					for _, e := range x.Edges {
+						if derived[e] {
+							derived[v], changed = true, true
+						}
+					}
+				case *ssa.Call:
+					if b, ok := x.Call.Value.(*ssa.Builtin); ok && b.Name() == "append" && len(x.Call.Args) > 0 && derived[x.Call.Args[0]] {
+						derived[v], changed = true, true
+					}
+				}
+			})
+		}
+		name := kit.ShortID(kit.FuncID(f))
+		bad := false
+		kit.AllInstrs(f, func(in ssa.Instruction) {
+			switch x := in.(type) {
+			case *ssa.Store:
+				if ia, ok := x.Addr.(*ssa.IndexAddr); ok && derived[ia.X] {
+					bad = true
+					r.Bad(rule, k.key(name+"/element-store"), posOf(p, in), "an element of a slice that may share the backing array of repo.splits is overwritten")
+				}
+			case ssa.CallInstruction:
+				if g := kit.StaticCallee(x); g != nil && g.Pkg != nil && g.Pkg.Pkg.Path() == "sort" {
+					for _, a := range x.Common().Args {
+						if derived[a] {
+							bad = true
+							r.Bad(rule, k.key(name+"/"+kit.ShortID(kit.CallID(x))), posOf(p, in), "%s reorders in place a slice that may share the backing array of repo.splits (repo.splits itself, a re-slice, or append(repo.splits, …) writing into spare capacity): the split table that ProcessHeader and VerifyHeader consult changes under them", kit.ShortID(kit.CallID(x)))
+							break
+						}
+					}
+				}
+			}
+		})
+		if !bad {
+			r.OK(rule, name+"/reads-splits", posOf(p, f.Blocks[0].Instrs[0]), "reads repo.splits without reordering or overwriting its elements")
+		}
+	}
+	if readers < 3 {
+		r.Unknown(rule, "Repository.splits/readers", "-", "expected at least 3 functions reading repo.splits, found %d", readers)
 	}
 }
